@@ -43,4 +43,16 @@ func init() {
 		explanation: "Decides the table-and-gate part of the access-control matrix completely: the permission tables are constant and mutually consistent; every RPC handler that touches a database passes getDBFromCtx with a constant method name that has a row; a handler that can reach a commit sink (effect class computed from the call graph of pkg/database, not from names) is gated by a row without read-only permission; administrative rows are admin/sysadmin-only; the system-database allow-list contains no write-class method; inside the gate every successful return is dominated by the system-database guard and by IsSysAdmin/HasPermissionForMethod; user changes invalidate sessions after the new record is saved; SQL statements that can write report readOnly()==false. It does NOT decide interceptor configuration, token expiry arithmetic or the pgsql front-end's own authentication.",
 		assumptions: []string{"gRPC interceptors are installed as configured in pkg/server (not analysed)"},
 	})
+	register("C07", &propDef{
+		patterns: []string{"./pkg/database", "./embedded/store", "./pkg/replication", "./pkg/server", "./pkg/client"},
+		run:      c07,
+		explanation: "Decides the structural clauses behind faithful replication: every exported database method from which a commit sink is reachable (call-graph effect class) is behind an isReplica() gate with the right polarity, replica-only operations behind the negated gate; every field of the replicated tx header is compared with or copied into the locally built header during precommit (Alh is a function of exactly these fields) and the Eh comparison can only be skipped through skipIntegrityCheck; the commit allowance is written only by AllowCommitUpto/SetExternalCommitAllowance, raised by the primary only with enough acknowledgements and accepted by a replica only after an Alh comparison; error texts and stream-metadata keys matched by the replicator are produced by the peer. It does NOT decide equality of histories over delivery schedules.",
+		assumptions: []string{"the replicator is the only client of ExportTx/ReplicateTx"},
+	})
+	register("C06", &propDef{
+		patterns: []string{"./pkg/database", "./embedded/store"},
+		run:      c06,
+		explanation: "Decides the waiting discipline linearizability of the KV API rests on: every direct index read in pkg/database is preceded on all paths by an indexing wait (WaitForIndexingUpto / snapshotSince / SnapshotMustIncludeTxID) whose target derives from the committed frontier or the request's SinceTx, unless across the request's NoWait or AtTx edges; writes commit asynchronously only under NoWait, otherwise wait for commit and then for indexing of their own tx; KV preconditions and MVCC validation run under the store mutex after the index has caught up. It does NOT decide linearizability of histories.",
+		assumptions: []string{"default waiting semantics"},
+	})
 }
